@@ -3,6 +3,7 @@ package checks
 import (
 	"bytes"
 	"context"
+	"embed"
 	"encoding/json"
 	"fmt"
 	"io"
@@ -48,7 +49,7 @@ const c11SweepOp = 15
 
 var (
 	c11Shapes = []string{"single", "alternative", "body+attachment", "body+embed", "attachment-only", "preformatted-and-many-generic-headers", "smime-single", "smime+attachment", "two-attachments-only", "body-writer+file-writer (switchable source fault)", "caller-fixed boundary: alternative+attachment (nested multiparts)", "caller-fixed boundary: S/MIME alternative+attachment", "single body with a transfer encoding outside go-mail's constants (binary)", "PGP/MIME encrypted (WithPGPType, two caller-supplied parts)", "PGP/MIME signed (SetPGPType, body + detached signature part)"}
-	c11Srcs   = []string{"reader", "readseeker", "file", "fs.FS", "text-template", "reader(*bytes.Reader, partially consumed)", "reader(*strings.Reader)", "readseeker(partially consumed)", "reader(*os.File)"}
+	c11Srcs   = []string{"reader", "readseeker", "file", "fs.FS", "text-template", "reader(*bytes.Reader, partially consumed)", "reader(*strings.Reader)", "readseeker(partially consumed)", "reader(*os.File)", "embed.FS"}
 	c11Ops    = []string{"WriteTo", "Write", "NewReader", "UpdateReader", "WriteToFile", "WriteToTempFile", "Send", "WriteTo(sink fails at 0)", "WriteTo(sink fails mid-way)",
 		"WriteTo(while the content source fails)", "NewReader(while the content source fails)", "UpdateReader(while the content source fails)", "Send(while the content source fails)", "NewReader(only 64 bytes read)", "NewReader(copied into a failing sink)", "WriteTo(sink fails at byte K)"}
 )
@@ -59,6 +60,9 @@ func c11HasFile(shape int) bool {
 func c11MapMatters(shape int) bool {
 	return shape == 4 || shape == 5 || shape == 6 || shape == 7
 }
+
+//go:embed testdata/data.bin
+var c11EmbedFS embed.FS
 
 var c11FileContent = []byte("file content line one\nline two with bare LF\r\nbinary: \x00\x01\xfe\xff = . end\n")
 
@@ -215,6 +219,12 @@ func c11Build(cfg c11Cfg, dir string) (*mail.Msg, error) {
 				note(m.EmbedFromIOFS(name, fsys, fo...))
 			} else {
 				note(m.AttachFromIOFS(name, fsys, fo...))
+			}
+		case "embed.FS":
+			if embed {
+				note(m.EmbedFromEmbedFS("testdata/"+name, &c11EmbedFS, fo...))
+			} else {
+				note(m.AttachFromEmbedFS("testdata/"+name, &c11EmbedFS, fo...))
 			}
 		case "text-template":
 			tpl, terr := tt.New("t").Parse("templated {{.}} content\nsecond line\n")
